@@ -314,7 +314,7 @@ def source_tie(pid, ctx):
         import srctie
         if pid not in srctie.KERNELS:
             return None
-        return srctie.check(REPO, pid, ctx.scratch, COQ, COQ_Q)
+        return srctie.check(REPO, pid, ctx.scratch, COQ, COQ_Q, thorough=ctx.thorough)
     except Exception as e:                       # a translator crash is not a verdict about the code
         return {"kernels": [], "proved": 0, "total": 0, "error": repr(e)[:300]}
 
@@ -473,6 +473,7 @@ def write_evidence(ctx, violations, rule, extra_assumptions=None):
             "what": "scalar / decision kernels translated from /repo's current source by harness/srctie.py and proved equal, for all inputs, to the model functions (Coq, this run)",
             "kernels": [{k2: v for k2, v in k.items() if k2 != "detail" or k["status"] != "proved"} for k in t.get("kernels", [])],
             "proved": t.get("proved", 0), "total": t.get("total", 0), "wall_s": t.get("wall_s"),
+            **({"coqchk_ok": t["coqchk_ok"], "coqchk_s": t["coqchk_s"]} if "coqchk_ok" in t else {}),
             "policy": "unproved (translated, equality fails) = broken tie, reported — except kernels marked strict=false (transcendental identities are outside the generic tactics; an unproved one is decided by the correspondence); untranslatable = tie not available for that kernel, correspondence only",
         }
         if t.get("error"):
